@@ -155,6 +155,12 @@ func hostVariants() []hostVariant {
 		{name: "[::]", authority: "[::]", localhost: true},
 		{name: "[::ffff:127.0.0.1]", authority: "[::ffff:127.0.0.1]", localhost: true},
 		{name: "localhost-trailing-dot", authority: "localhost.", localhost: true},
+		// other spellings of the same loopback / unspecified addresses (a dialer treats them all alike)
+		{name: "[0:0:0:0:0:0:0:1]", authority: "[0:0:0:0:0:0:0:1]", localhost: true},
+		{name: "[::0]", authority: "[::0]", localhost: true},
+		{name: "[0:0:0:0:0:0:0:0]", authority: "[0:0:0:0:0:0:0:0]", localhost: true},
+		{name: "[::ffff:0.0.0.0]", authority: "[::ffff:0.0.0.0]", localhost: true},
+		{name: "[::ffff:7f00:1]", authority: "[::ffff:7f00:1]", localhost: true},
 	}
 	if al := hostsFileAliases(); len(al) > 0 {
 		hv = append(hv, hostVariant{name: "hosts-file-alias", authority: al[0], localhost: true},
